@@ -44,7 +44,7 @@ func cfgFor(prop, tier string) tierCfg {
 		if quick {
 			return tierCfg{scenarios: 300, raceFrac: 0.2, maxOps: 80, maxW: []int{1, 1, 1, 2, 3}, maxBits: 120_000, budget: 3 * time.Minute, shrinkEvals: 150}
 		}
-		return tierCfg{scenarios: 6000, raceFrac: 0.2, maxOps: 1500, maxW: []int{1, 1, 2, 3, 4}, maxBits: 400_000, budget: 40 * time.Minute, shrinkEvals: 400}
+		return tierCfg{scenarios: 6000, raceFrac: 0.2, maxOps: 700, maxW: []int{1, 1, 2, 3, 4}, maxBits: 400_000, budget: 40 * time.Minute, shrinkEvals: 400}
 	}
 }
 
@@ -452,8 +452,17 @@ func finishC16(sc *Scenario, refs *RefTable) {
 
 func genC18(seed uint64, cfg tierCfg) []*Scenario {
 	var scs []*Scenario
-	hist := 0
 	for id := 0; id < cfg.scenarios; id++ {
+		scs = append(scs, genC18At(seed, cfg, id))
+	}
+	return scs
+}
+
+// genC18At builds scenario id alone (a pure function of seed and id), so that
+// the thorough tier can produce its long histories on demand.
+func genC18At(seed uint64, cfg tierCfg, id int) *Scenario {
+	hist := id * 1000
+	{
 		s := mix(seed, 18, 2, uint64(id))
 		r := &rng{s: s}
 		sc := &Scenario{ID: id, Seed: s, Property: "C18"}
@@ -486,9 +495,8 @@ func genC18(seed uint64, cfg tierCfg) []*Scenario {
 			seg.Stalls = append(seg.Stalls, Stall{G: r.rangeIn(1, w+6), From: r.intn(2000), Len: r.rangeIn(10, 3000)})
 		}
 		sc.Segments = []Segment{seg}
-		scs = append(scs, sc)
+		return sc
 	}
-	return scs
 }
 
 // ---- driver ---------------------------------------------------------------------
@@ -566,7 +574,7 @@ func runCheck(prop, tier string) int {
 		scs, _ = genC16(seed, cfg)
 		rule = "one evaluation = one cold process in which W caller goroutines (after an optional sequential warm-up) run programs of encodes/Scale/RS calls, every goroutine (callers and the library's own) released one at a time by the seeded scheduler at every channel/lock/go/call boundary, with stall faults; oracles: per-call equality with the fresh-process reference, no panic, no scheduler-level deadlock, step cap, no library goroutine alive at quiescence, no race report (race-build segments). distinct_nontrivial = distinct switch signatures among segments with at least one context switch between different goroutines"
 	case "C18":
-		scs = genC18(seed, cfg)
+		// generated on demand in the exploration loop (see below)
 		rule = "one evaluation = one process in which 1..4 callers each run a list of seeded BitList operation histories (new/zero, AddBit, AddBits, AddByte, SetBit, GetBit, Len, GetBytes, IterateBytes) against a []bool model, the IterateBytes producer being interleaved with the consumer (which keeps reading) by the seeded scheduler; distinct_nontrivial = distinct switch signatures among segments with at least one producer/consumer context switch"
 	default:
 		fmt.Fprintln(os.Stderr, "verifctl: no check for property", prop)
@@ -720,7 +728,12 @@ func runCheck(prop, tier string) int {
 		exhaustiveN, exhaustiveFs = n, efs
 		fmt.Printf("bounded exhaustive complement: %d BitList histories (all sequences of <= %d operations over %d concrete operations, <= %d over 12), %d divergences\n", n, ml, len(smallAlphabet()), rl, len(efs))
 	}
-	fs, err := ck.explore(scs)
+	var fs []found
+	if prop == "C18" {
+		fs, err = ck.exploreLazy(cfg.scenarios, func(i int) *Scenario { return genC18At(seed, cfg, i) })
+	} else {
+		fs, err = ck.explore(scs)
+	}
 	fs = append(exhaustiveFs, fs...)
 	if err != nil {
 		fmt.Fprintln(os.Stderr, "verifctl: harness trouble:", err)
